@@ -119,7 +119,7 @@ MODEL_PATHS = [
 ]
 LOAD_ENTRIES = ["load_numpy", "load_tobytes", "load_tofile"]
 # where in the model file the external tensor sits ("all tensors of the model" get the base directory)
-PLACES = ["main_init", "main_attr", "main_attr_list", "sub_init", "sub_attr", "sub2_init", "sub2_attr", "func_attr", "func_sub_attr", "func_sub_init", "funcdefault", "funcdefault_list", "graphs_init", "graphs_attr"]
+PLACES = ["main_init", "main_attr", "main_attr_list", "sub_init", "sub_attr", "sub2_init", "sub2_attr", "func_attr", "func_sub_attr", "func_sub_init", "funcdefault", "funcdefault_list", "funcdefault_graph", "graphs_init", "graphs_attr"]
 # multi-step histories on ONE tensor object: read, change the world or the base directory, read again
 HIST_LOCS = ["a.bin", "sub/b.bin", "sub/deeper/c.bin", "link_in", "dlink_in/b.bin"]
 HIST_FIRST = ["numpy", "tobytes", "tofile_bytesio", "asarray", "none"]
@@ -356,7 +356,12 @@ def _write_model_file(path: str, loc: str, off: int, ln: int, place: str = "main
         nd.output.append("fo")
         ap = f.attribute_proto.add()
         ap.name = "t"
-        if place.endswith("list"):
+        if place.endswith("graph"):
+            # the default value is a GRAPH whose initializer is the external tensor
+            ap.type = onnx.AttributeProto.GRAPH
+            ap.g.name = "default_body"
+            t = ap.g.initializer.add()
+        elif place.endswith("list"):
             ap.type = onnx.AttributeProto.TENSORS
             t = ap.tensors.add()
         else:
@@ -451,6 +456,11 @@ def _find_external(model):
                 found.append(a.value)
             elif a.type == ir.AttributeType.TENSORS:
                 found.extend(x for x in a.value if isinstance(x, ir.ExternalTensor))
+            elif a.type == ir.AttributeType.GRAPH:
+                graph(a.value)
+            elif a.type == ir.AttributeType.GRAPHS:
+                for sg in a.value:
+                    graph(sg)
     if len(found) != 1:
         raise AssertionError(f"harness: expected one external tensor in the loaded model, found {len(found)}")
     return found[0]
